@@ -24,6 +24,11 @@ func CreateCookie(key, value string) *http.Cookie {
 	h.Add("Cookie", fmt.Sprintf("%s=%s", key, value))
 	rr := http.Request{Header: h}
 	c, _ := rr.Cookie(key) // nolint:errcheck
+	if c == nil {
+		// net/http refuses to parse this pair: hand it over as it is,
+		// Request.AddCookie drops the bytes a cookie cannot carry
+		c = &http.Cookie{Name: key, Value: value}
+	}
 	return c
 }
 
